@@ -155,5 +155,10 @@ Allowed(e) ==
          \* (an image without rows is an image too; one without columns cannot have rows)
          /\ (e.w >= 1 /\ e.h >= 0) =>
               (e.res[1] = "ok" /\ e.res[2] = e.w /\ e.res[3] = e.h /\ e.res[5] = e.pix)
+    [] e.op = "pair" ->
+         \* the same samples as text (e.rt) and as binary (e.rb) under a header with maxval e.max: the same
+         \* image - or, where the samples do not fit the header, the same refusal
+         /\ e.rt[1] # "panic" /\ e.rb[1] # "panic"
+         /\ (e.rt[1] = "ok" /\ e.rb[1] = "ok" /\ e.rt = e.rb) \/ (e.rt[1] = "err" /\ e.rb[1] = "err")
     [] OTHER -> FALSE
 =============================================================================
